@@ -1,6 +1,7 @@
 """C02 -- lexical format -> parse round trip (structural clauses)."""
-import collections
+import collections, json
 import hir, mir, tables, emit, deps
+from hir import strip, field_path
 from facts import AnchorMissing
 
 LEVEL = "other"
@@ -57,6 +58,14 @@ def callee_multiset(f, path, depth=0):
         if b2["defkind"] == "Closure" and p2.startswith(path + "::"):
             c.update(callee_multiset(f, p2, depth + 1))
     return c
+
+
+def maps_table_field(e):
+    import maps as _m
+    e = strip(e)
+    while e["k"] == "AddrOf":
+        e = strip(e["e"])
+    return _m.table_field(hir.field_path(e))
 
 
 def run(ctx):
@@ -221,6 +230,43 @@ def run(ctx):
     # every formatter function against its reviewed emission skeleton
     import emit as _emit
     _emit.rule_F_SKELETON_ALL(ctx)
+    import lskel as _lskel
+    _lskel.rule_L_SKELETON(ctx, which=('lexical',), floor=10)
+    # ---- A-ATOM-LEX: the name scan of the lexical parser
+    ctx.rule("A-ATOM-LEX", "lexical segment_atom: a character continues the name iff it is an identifier character AND no copula starts at it "
+             "(closure = is_identifier(c) && copulas.match_prefix_char_slice(&env[i..]).is_none(), copulas = format.statement.copulas); the atom "
+             "is rejected iff the name is empty AND the prefix is empty (content_start >= right_border && prefix.is_empty())")
+    sa = f.hir_fn("segment_atom", module="impl_lexical::parser")
+    ctx.fn(sa)
+    cl = [n_ for n_ in hir.walk(sa["body"]) if n_.get("k") == "Closure" and len(n_.get("params", [])) == 2]
+    okc = False
+    if len(cl) == 1:
+        pi, pc_ = [q.get("name") for q in cl[0]["params"]]
+        b_ = strip(cl[0]["body"])
+        if b_["k"] == "Binary" and b_["op"] in ("&&", "And"):
+            l_, r_ = strip(b_["l"]), strip(b_["r"])
+            lid = l_["k"] == "Call" and field_path(strip(l_["f"])) is not None and field_path(strip(l_["f"]))[-1] == "is_identifier" and field_path(l_["args"][0]) == (pc_,)
+            rnone = r_["k"] == "MethodCall" and r_["method"] == "is_none" and strip(r_["recv"])["k"] == "MethodCall" \
+                and strip(r_["recv"])["method"] == "match_prefix_char_slice" and field_path(strip(r_["recv"])["recv"]) == ("copulas",)
+            if rnone:
+                a_ = strip(strip(r_["recv"])["args"][0])
+                while a_["k"] == "AddrOf":
+                    a_ = strip(a_["e"])
+                rnone = a_["k"] == "Index" and field_path(a_.get("e") or a_.get("base")) == ("env",) and pi in json.dumps(a_["idx"])
+            okc = lid and rnone
+    cop = [st_ for st_ in strip(sa["body"])["stmts"] if st_["k"] == "Let" and st_["pat"].get("name") == "copulas"]
+    okcop = len(cop) == 1 and maps_table_field(cop[0]["init"]) == "statement.copulas"
+    ctx.ob("A-ATOM-LEX", "segment_atom: name continues iff identifier char and no copula starts here", okc and okcop, "closure shape ok: %s; copulas = statement.copulas: %s" % (okc, okcop))
+    ifs = [strip(st_["expr"]) for st_ in strip(sa["body"])["stmts"] if st_["k"] in ("Semi", "Expr") and strip(st_["expr"])["k"] == "If"]
+    oke = False
+    if len(ifs) == 1:
+        c_ = strip(ifs[0]["cond"])
+        if c_["k"] == "Binary" and c_["op"] in ("&&", "And"):
+            l_, r_ = strip(c_["l"]), strip(c_["r"])
+            oke = l_["k"] == "Binary" and l_["op"] in (">=", "Ge") and field_path(l_["l"]) == ("content_start",) and field_path(l_["r"]) == ("right_border",) \
+                and r_["k"] == "MethodCall" and r_["method"] == "is_empty" and field_path(r_["recv"]) == ("prefix",) \
+                and any(n_.get("k") == "Ret" for n_ in hir.walk(ifs[0]["then"]))
+    ctx.ob("A-ATOM-LEX", "segment_atom: rejected iff name and prefix are both empty", oke, "expected `if content_start >= right_border && prefix.is_empty() { return err }`")
     ctx.undecided = ["structural equality of the re-parsed tree for all vocabulary-consistent values (nesting- and value-dependent)"]
     ctx.assumptions = ["nar_dev_utils join helpers and dictionaries behave as summarised (source hash asserted)"]
     ctx.trusted = ["rustc HIR/MIR", "mirfacts driver", "pinned nar_dev_utils 0.42.3 source", "python rule layer"]
